@@ -501,6 +501,9 @@ func init() {
 		assumptions: append([]string{"wait-when-unlocked (0x0200) is not in C04's alphabet: such a request is queued on a free key by design"}, commonAssumptions...)})
 
 	comboCheck(comboDef{id: "C17", level: "model_checking",
+		enum: func(q bool) []*EnumPlan {
+			return []*EnumPlan{{Name: "crowded-key-fifo", Cases: c17CrowdCases, Eval: evalC17Crowd}}
+		},
 		sched: func(q bool) *SchedPlan {
 			specs := append(coreSchedSpecs(q), waitSchedSpecs(q)...)
 			// keys that live for one request only (expiry 0: granted and freed at once): one thread's key is being
